@@ -948,7 +948,8 @@ def emit_delete_case(cid, ob):
 class C19(Prop):
     pid = "C19"
     title = "Grid, slice and core/shell addressing of shapes and stacks is geometric"
-    prebuilt = ["Model/C19_Stack.v", "Model/C19_Spec.v", "Proofs/C19_Stack.v", "Proofs/C19_Spec.v"]
+    prebuilt = ["Model/C19_Stack.v", "Model/C19_Spec.v", "Proofs/C19_Stack.v", "Proofs/C19_Spec.v",
+                "Model/C19_Mirror.v", "Proofs/C19_Mirror.v"]
     gen_dependent_files = ["Gen/C19/Tables.v"]
     property_files = ["Properties/C19.v"]
     trusted = [
